@@ -342,7 +342,9 @@ fn extract_source_map<R: Read>(
                         let final_path = if source_path.is_absolute() {
                             source_path
                         } else {
-                            let folder = file_reader.parent(Path::new(file_path)).unwrap();
+                            // a file name without a directory has no parent: resolve against ""
+                            let folder =
+                                file_reader.parent(Path::new(file_path)).unwrap_or_default();
                             folder.join(source_path)
                         };
 
